@@ -279,6 +279,21 @@ def pending_hold_streams():
                 yield sorted(st, key=lambda x: (x.beat, x.column))
 
 
+def subtick_streams():
+    """notes whose beats differ by less than a tick (1/5 and 5/24, rows of 20- and 24-line measures): order is by exact beat"""
+    n, g = G()
+    from simfile.timing import Beat
+    T = n.NoteType
+    a, b = Beat(1, 5), Beat(5, 24)
+    for c_hold, c_tap in ((1, 0), (0, 1)):
+        for first, second in ((a, b), (b, a)):
+            lo, hi = min(first, second), max(first, second)
+            tail_at, tap_at = (lo, hi) if first is a else (hi, lo)
+            st = [n.Note(Beat(0), c_hold, T.HOLD_HEAD, 0, None), n.Note(tail_at, c_hold, T.TAIL, 0, None), n.Note(tap_at, c_tap, T.TAP, 0, None),
+                  n.Note(Beat(1), 0, T.MINE, 0, None)]
+            yield sorted(st, key=lambda x: (x.beat, x.column))
+
+
 class Composition(Bounded):
     function = "simfile.notes.group.ungroup_notes o group_notes"
     PARTS = 12
@@ -290,7 +305,7 @@ class Composition(Bounded):
     def bound(self, tier):
         r = 3 if tier == "quick" else 4
         return (f"all single-player streams on 2 columns x {r} rows and on 3 columns x 2 rows, 5 cell kinds (tap, hold head, roll head, tail, mine; one head kind keysounded) "
-                f"plus 3 and 4 simultaneously open holds with their tails in every order (with / without a trailing tap) "
+                f"plus 3 and 4 simultaneously open holds with their tails in every order (with / without a trailing tap), plus streams with beats closer than a tick "
                 f"x 4 sets of included types (all; heads without tails; holds without rolls; tails and taps) x 3 same-beat modes x join on/off x orphan policies {{keep, drop}}^2 x the three policies of ungroup_notes")
 
     def run(self, tier, seed):
@@ -305,7 +320,7 @@ class Composition(Bounded):
         cases, failures = 0, []
         pols = (g.OrphanedNotes.KEEP_ORPHAN, g.OrphanedNotes.DROP_ORPHAN)
         import itertools as _it
-        for idx, stream in enumerate(_it.chain(grid_streams(2, rows, kinds), grid_streams(3, 2, kinds), pending_hold_streams())):
+        for idx, stream in enumerate(_it.chain(grid_streams(2, rows, kinds), grid_streams(3, 2, kinds), pending_hold_streams(), subtick_streams())):
             if idx % self.PARTS != self.part:
                 continue
             for include, sb, join in itertools.product(subsets, g.SameBeatNotes, (False, True)):
